@@ -67,8 +67,11 @@ def fpOfNorm (E : Env) (s : Bool) : Str ⊕ Split → Except Err Split
   | .inl x => if x.length = 5 then .error .attributeError else .error .valueError
   | .inr r => fpParts E s r
 
-/-- **definitional factorisation**: `fingerprint_url` sees its argument only through
-`normalize_url(url.lower(), query_item_filter=lang, lowercase=True, unsplit=False)` -/
+/-- **definitional factorisation** (a lemma: it unfolds the definition): `fingerprint_url` sees its
+argument only through `normalize_url(url.lower(), query_item_filter=lang, lowercase=True,
+unsplit=False)`.  The clause "ignores everything normalize_url ignores" is NOT carried by this and
+the next two statements (their hypothesis is the equality of that very call) but by
+`Props/C06Fp.lean`: `fingerprintUrlString (T u) = fingerprintUrlString u` for every `T` of C04's family. -/
 theorem fp_factor (E : Env) (s : Bool) (url : Str) :
     fingerprintUrlSplit E s url =
       fpOfNorm E s (normalizeUrlSplit E.puny E.parse E.platform fpOpts true (lower url)) := by
@@ -143,7 +146,10 @@ theorem lower_flipCase (mask : List Bool) (s : Str) : lower (flipCase mask s) = 
       cases b <;> simp [flipCase, lower, lowerChar_swapCaseChar, this]
 
 /-- **letter case of the whole URL is ignored**: two strings with the same `str.lower` have the
-same fingerprint (tuple, string, and the same error if any), whatever the options -/
+same fingerprint (tuple, string, and the same error if any), whatever the options.  `lower` is the
+model's `str.lower`, which folds `A`–`Z` only: a congruence on `lower url` that covers every ASCII
+case flip (`fp_case_flip`); what Python's `str.lower` does to other letters (`É`, the Kelvin sign)
+is outside the model alphabet — oracle on the real code, and for hosts the HostCase laws of C03. -/
 theorem fp_case_insensitive (E : Env) (s : Bool) (u v : Str) (h : lower u = lower v) :
     fingerprintUrlSplit E s u = fingerprintUrlSplit E s v ∧ fingerprintUrl E s u = fingerprintUrl E s v :=
   fp_of_norm_eq E s u v (by rw [h])
